@@ -1,5 +1,7 @@
 """Structured .osu generator (the 'osu-grammar' family of DESIGN.md 3.4): every section, four modes,
 versions 3..128, all object kinds, multi-segment paths, same-time timing groups, optional hostile values."""
+import math
+
 from .props.c11 import FLOATS, INTS, STRINGS, EVENT_LINES, COLOR_LINES
 from .props.c14 import EXTRAS, PATHS, EDGE_SETS, EDGE_SOUNDS
 
@@ -98,6 +100,18 @@ def gen_timing(rng, mode, hostile, tmax, chronological, tshift=0, integer_times=
     if not chronological:
         rng.shuffle(times)
     times = [x + tshift for x in times]
+    # times that differ by less than the decoder's grouping epsilon (adjacent floats, ±0, 1e-17): next to each other
+    # when chronological, anywhere otherwise
+    if times and not integer_times and rng.random() < 0.12:
+        i = rng.randrange(len(times))
+        t0 = float(times[i])
+        twin = rng.choice([math.nextafter(t0, math.inf), math.nextafter(t0, -math.inf), t0 + 1e-17 if t0 == 0 else t0 * (1 + 3e-16)])
+        if t0 == 0 and rng.random() < 0.3:
+            twin = -0.0
+        j = i + 1 if chronological else rng.randrange(len(times) + 1)
+        if chronological and twin < t0:
+            j = i
+        times.insert(j, twin)
     first = True
     for t in times:
         timing = first or rng.random() < 0.3
